@@ -28,6 +28,11 @@ pub fn reachable(m: &AMod) -> HashSet<Ent> {
 /// `live_code_only`: operands of syntactically unreachable code do not count (walrus drops that code
 /// while parsing; used when the *input* is analysed)
 pub fn reachable_with(m: &AMod, live_code_only: bool) -> HashSet<Ent> {
+    reachable_from(m, live_code_only, &[])
+}
+
+/// `extra`: roots declared by custom sections
+pub fn reachable_from(m: &AMod, live_code_only: bool, extra: &[Ent]) -> HashSet<Ent> {
     let mut seen: HashSet<Ent> = HashSet::new();
     let mut todo: Vec<Ent> = vec![];
     let push = |e: Ent, seen: &mut HashSet<Ent>, todo: &mut Vec<Ent>| {
@@ -35,6 +40,9 @@ pub fn reachable_with(m: &AMod, live_code_only: bool) -> HashSet<Ent> {
             todo.push(e);
         }
     };
+    for e in extra {
+        push(*e, &mut seen, &mut todo);
+    }
     for e in &m.exports {
         push((e.kind, e.index), &mut seen, &mut todo);
     }
@@ -148,8 +156,79 @@ pub fn reachable_with(m: &AMod, live_code_only: bool) -> HashSet<Ent> {
 
 /// C07 precision: everything in the output must be reachable (tolerance: one memory when data
 /// segments are kept and no memory is otherwise reachable)
+/// the roots a `verif-roots` custom section of the output declares (it writes the *emitted* index of
+/// each of its roots into its payload: kind byte, u32 LE)
+fn output_custom_roots(b: &AMod) -> Vec<Ent> {
+    let mut v = vec![];
+    for c in &b.customs {
+        if c.name == "verif-roots" {
+            for ch in c.data.chunks(5) {
+                if ch.len() == 5 {
+                    let i = u32::from_le_bytes([ch[1], ch[2], ch[3], ch[4]]);
+                    let sp = match ch[0] {
+                        b'f' => Space::Func,
+                        b't' => Space::Table,
+                        b'm' => Space::Mem,
+                        _ => Space::Global,
+                    };
+                    v.push((sp, i));
+                }
+            }
+        }
+    }
+    v
+}
+
+/// a custom section that declares GC roots (`CustomSection::add_gc_roots`)
+#[derive(Debug, Default)]
+struct RootsSection {
+    funcs: Vec<walrus::FunctionId>,
+    tables: Vec<walrus::TableId>,
+    mems: Vec<walrus::MemoryId>,
+    globals: Vec<walrus::GlobalId>,
+}
+impl walrus::CustomSection for RootsSection {
+    fn name(&self) -> &str {
+        "verif-roots"
+    }
+    fn data(&self, ids: &walrus::IdsToIndices) -> std::borrow::Cow<[u8]> {
+        let mut v = vec![];
+        for x in &self.funcs {
+            v.push(b'f');
+            v.extend(ids.get_func_index(*x).to_le_bytes());
+        }
+        for x in &self.tables {
+            v.push(b't');
+            v.extend(ids.get_table_index(*x).to_le_bytes());
+        }
+        for x in &self.mems {
+            v.push(b'm');
+            v.extend(ids.get_memory_index(*x).to_le_bytes());
+        }
+        for x in &self.globals {
+            v.push(b'g');
+            v.extend(ids.get_global_index(*x).to_le_bytes());
+        }
+        std::borrow::Cow::Owned(v)
+    }
+    fn add_gc_roots(&self, roots: &mut walrus::passes::Roots) {
+        for x in &self.funcs {
+            roots.push_func(*x);
+        }
+        for x in &self.tables {
+            roots.push_table(*x);
+        }
+        for x in &self.mems {
+            roots.push_memory(*x);
+        }
+        for x in &self.globals {
+            roots.push_global(*x);
+        }
+    }
+}
+
 fn precision(b: &AMod) -> Vec<(String, String)> {
-    let r = reachable(b);
+    let r = reachable_from(b, false, &output_custom_roots(b));
     let mut f = vec![];
     let mut unreachable_mems = vec![];
     for sp in [Space::Func, Space::Table, Space::Global, Space::Mem, Space::Type, Space::Data, Space::Elem] {
@@ -251,6 +330,7 @@ fn apply_edit(m: &mut Module, e: Edit, rng: &mut Rng) {
 
 #[derive(Default)]
 struct Stats {
+    with_custom_roots: usize,
     cases: usize,
     samples: usize,
     removed_entities: usize,
@@ -262,17 +342,66 @@ fn count_all(m: &AMod) -> usize {
     [Space::Func, Space::Table, Space::Global, Space::Mem, Space::Type, Space::Data, Space::Elem].iter().map(|s| m.count(*s) as usize).sum()
 }
 
-fn run_wasm(case: &str, wasm: &[u8], edit: Edit, names_on: bool, stats: &mut Stats, rng: &mut Rng) {
+fn show_roots(roots: &[Ent]) -> String {
+    if roots.is_empty() {
+        "-".into()
+    } else {
+        roots.iter().map(|r| format!("{}:{}", r.0.tag(), r.1)).collect::<Vec<_>>().join(",")
+    }
+}
+
+fn parse_roots(s: &str) -> Vec<Ent> {
+    s.split(',')
+        .filter_map(|x| {
+            let (k, i) = x.split_once(':')?;
+            let sp = match k {
+                "f" => Space::Func,
+                "t" => Space::Table,
+                "m" => Space::Mem,
+                "g" => Space::Global,
+                _ => return None,
+            };
+            Some((sp, i.parse().ok()?))
+        })
+        .collect()
+}
+
+fn run_wasm(case: &str, wasm: &[u8], edit: Edit, names_on: bool, roots: &[Ent], stats: &mut Stats, rng: &mut Rng) {
     let prop = std::env::var("VERIF_PROPERTY").unwrap_or_default();
-    let only = format!("{:?} {} {}", edit, names_on as u8, out::hex(wasm));
+    let only = format!("{:?} {} {} {}", edit, names_on as u8, out::hex(wasm), show_roots(roots));
     let Ok(a) = decode::decode(wasm) else { return };
     let mut cfg = ModuleConfig::new();
     cfg.generate_name_section(names_on);
     cfg.generate_producers_section(names_on);
+    // roots declared by a custom section: the ids behind the chosen input indices are read from the
+    // parse-time map
+    let root_ids = std::sync::Arc::new(std::sync::Mutex::new(RootsSection::default()));
+    if !roots.is_empty() {
+        let sink = root_ids.clone();
+        let wanted = roots.to_vec();
+        cfg.on_parse(move |_, ids| {
+            let mut rs = sink.lock().unwrap();
+            for (sp, i) in &wanted {
+                match sp {
+                    Space::Func => rs.funcs.push(ids.get_func(*i)?),
+                    Space::Table => rs.tables.push(ids.get_table(*i)?),
+                    Space::Mem => rs.mems.push(ids.get_memory(*i)?),
+                    _ => rs.globals.push(ids.get_global(*i)?),
+                }
+            }
+            Ok(())
+        });
+    }
     let Ok(Ok(mut m)) = out::catch(|| cfg.parse(wasm)) else {
         out::oracle(case, false, "C05:valid-module-rejected-or-panic", &format!("parse failed | only: {}", only));
         return;
     };
+    if !roots.is_empty() {
+        let rs = std::mem::take(&mut *root_ids.lock().unwrap());
+        m.customs.add(rs);
+        stats.with_custom_roots += 1;
+    }
+    let rt = if roots.is_empty() { String::new() } else { format!(" RT {}", roots.iter().map(|r| format!("{}:{}", r.0.tag(), r.1)).collect::<Vec<_>>().join(" ")) };
     // ---- C02: emit without a pass (after the edit), then GC, emit again
     let mut fails: Vec<(String, String)> = vec![];
     let mut edit_rng = rng.clone();
@@ -300,7 +429,7 @@ fn run_wasm(case: &str, wasm: &[u8], edit: Edit, names_on: bool, stats: &mut Sta
             fails.push(("C06:gc-then-emit-panics".into(), format!("GC + emit (edit {:?}) panicked, no module is produced: {}", edit, &p[..p.len().min(200)].replace('\n', " "))));
             if edit == Edit::None {
                 // the model must predict the panic as a failed lookup
-                out::corr(case, true, &format!("gc {}", modtext::module_text(&a, false, names_on)), "panic");
+                out::corr(case, true, &format!("gc {}{}", modtext::module_text(&a, false, names_on), rt), "panic");
             }
             report(case, &prop, fails, &only);
             return;
@@ -318,7 +447,7 @@ fn run_wasm(case: &str, wasm: &[u8], edit: Edit, names_on: bool, stats: &mut Sta
 
     // ---- correspondence (unedited modules only: the model parses the input itself)
     if edit == Edit::None {
-        let req = format!("gc {}", modtext::module_text(&a, false, names_on));
+        let req = format!("gc {}{}", modtext::module_text(&a, false, names_on), rt);
         let obs = modtext::module_text(&b, false, names_on);
         out::corr(case, count_all(&b) < count_all(&a), &req, &obs);
         if stats.samples < 2 && req.len() < 700 {
@@ -345,7 +474,7 @@ fn run_wasm(case: &str, wasm: &[u8], edit: Edit, names_on: bool, stats: &mut Sta
     // ---- C06: everything reachable in the input survives (independent reachability over the decoded
     // input; compared per index space by count, the memory residue aside)
     if edit == Edit::None {
-        let r = reachable_with(&a, true);
+        let r = reachable_from(&a, true, roots);
         for sp in [Space::Func, Space::Table, Space::Global, Space::Type, Space::Data, Space::Elem, Space::Mem] {
             let want = if sp == Space::Type {
                 // types are de-duplicated: distinct reachable signatures
@@ -404,7 +533,8 @@ pub fn main(seed: u64, tier: &str, only: Option<&str>) {
             _ => Edit::None,
         };
         let mut rng = Rng::new(seed, 0);
-        run_wasm("replay", &out::unhex(f[2]), e, f[1] == "1", &mut stats, &mut rng);
+        let roots = f.get(3).map(|s| parse_roots(s)).unwrap_or_default();
+        run_wasm("replay", &out::unhex(f[2]), e, f[1] == "1", &roots, &mut stats, &mut rng);
         return;
     }
     let n = if tier == "thorough" { 5000 * crate::out::thorough_scale() } else { 360 };
@@ -419,8 +549,26 @@ pub fn main(seed: u64, tier: &str, only: Option<&str>) {
         let (wasm, _) = gen::gen_valid(&mut rng, &g);
         // edits only for C02 (the property that quantifies over them); others see plain modules
         let edit = if prop == "C02" { [Edit::None, Edit::AddFunc, Edit::DeleteExport, Edit::AddEntities, Edit::NameEverything, Edit::None][case % 6] } else if case % 5 == 4 { Edit::DeleteExport } else { Edit::None };
-        run_wasm(&format!("g{}", case), &wasm, edit, case % 3 != 0, &mut stats, &mut rng);
+        // every third unedited module carries a custom section that declares one to three roots
+        // (functions, tables, memories, globals: what `Roots` lets a custom section push)
+        let mut roots: Vec<Ent> = vec![];
+        if edit == Edit::None && case % 3 == 1 {
+            if let Ok(a) = decode::decode(&wasm) {
+                for _ in 0..rng.range(1, 3) {
+                    let sp = *rng.pick(&[Space::Func, Space::Func, Space::Table, Space::Mem, Space::Global, Space::Global]);
+                    let n = a.count(sp);
+                    if n > 0 {
+                        let e = (sp, rng.below(n as u64) as u32);
+                        if !roots.contains(&e) {
+                            roots.push(e);
+                        }
+                    }
+                }
+            }
+        }
+        run_wasm(&format!("g{}", case), &wasm, edit, case % 3 != 0, &roots, &mut stats, &mut rng);
     }
+    out::stat("gc.cases_with_custom_section_roots", stats.with_custom_roots);
     out::stat("gc.cases", stats.cases);
     out::stat("gc.entities_kept", stats.kept_entities);
     out::stat("gc.entities_removed", stats.removed_entities);
